@@ -93,6 +93,10 @@ class SetTyper:
                         if isinstance(st.value, (ast.Set, ast.SetComp)) or (isinstance(st.value, ast.Call) and (call_name(st.value) or "") in SET_CTORS):
                             return True
             return False
+        if isinstance(e, ast.Attribute):
+            # `ctx.builder.used_opsets`: an attribute of another object.  Attribute names that every class of the package which
+            # assigns them annotates / initialises as a set are sets wherever they are read.
+            return e.attr in _set_attribute_names(self.idx)
         return False
 
     def _name_is_set(self, name: str, depth: int) -> bool:
@@ -137,6 +141,36 @@ class SetTyper:
                     res = True
         self._cache[name] = res
         return res
+
+
+_SET_ATTR_CACHE: dict = {}
+
+
+def _set_attribute_names(idx: Index) -> Set[str]:
+    key = id(idx)
+    if key in _SET_ATTR_CACHE:
+        return _SET_ATTR_CACHE[key]
+    votes: dict = {}
+    for m in idx.product_modules():
+        for st in ast.walk(m.tree):
+            tgt = val = ann = None
+            if isinstance(st, ast.AnnAssign) and isinstance(st.target, ast.Attribute) and isinstance(st.target.value, ast.Name) and st.target.value.id == "self":
+                tgt, val, ann = st.target.attr, st.value, st.annotation
+            elif isinstance(st, ast.Assign) and len(st.targets) == 1 and isinstance(st.targets[0], ast.Attribute) and isinstance(st.targets[0].value, ast.Name) and st.targets[0].value.id == "self":
+                tgt, val = st.targets[0].attr, st.value
+            if tgt is None:
+                continue
+            is_set = (ann is not None and _ann_is_set(ann)) or isinstance(val, (ast.Set, ast.SetComp)) or (isinstance(val, ast.Call) and (call_name(val) or "") in SET_CTORS)
+            if ann is None and val is not None and not is_set and not isinstance(val, (ast.Constant,)):
+                # an un-annotated assignment from something else: unknown, counts against
+                votes.setdefault(tgt, []).append(False)
+            elif is_set:
+                votes.setdefault(tgt, []).append(True)
+            elif ann is not None:
+                votes.setdefault(tgt, []).append(False)
+    out = {a for a, v in votes.items() if v and all(v)}
+    _SET_ATTR_CACHE[key] = out
+    return out
 
 
 @dataclass
